@@ -20,7 +20,7 @@ from ..absint import Evaluator, Const, Sym, Obj, EnumMember, TOP, NOT_HANDLED
 from ..fsmodel import StoreModel, Effect, show, mentions_sym, mentions_attr
 from ..flow import flow_of
 from ..model import unparse, AnchorError, const_str, Func, f_cls, stmt_key
-from .common import Ctx
+from .common import Ctx, ancestors
 from .c17 import ref_literal, _class_of_expr, check_reader
 
 PROP = "C19"
@@ -327,6 +327,32 @@ def full_copy_vouched(ctx: Ctx, rule: str, ev: Evaluator, enum, full_name: str) 
                     return False
             return True
 
+        # the voucher that this iteration WRITES says "copied" only when this commit is a full one (the copy it vouches for is the copy of the key being recorded)
+        for d_ in f.own_nodes():
+            if isinstance(d_, ast.Dict) and any(isinstance(k_, ast.Constant) and k_.value in key_fields for k_ in d_.keys):
+                for k_, v_ in zip(d_.keys, d_.values):
+                    if isinstance(k_, ast.Constant) and isinstance(k_.value, str) and k_.value not in key_fields:
+                        n += 1
+                        atoms.clear()
+                        fm_ = form(_ct_expand(prog, f, v_))
+                        names_ = [a_ for a_ in atoms]
+                        can_true = False
+                        for bits in itertools.product([False, True], repeat=len(names_)):
+                            asg = dict(zip(names_, bits))
+                            asg["full"], asg["vouched"] = False, True
+                            try:
+                                if val(fm_, asg):
+                                    can_true = True
+                            except KeyError:
+                                can_true = True
+                        d3 = f"the record field `{k_.value}` written by sync_paths is true only when this commit made the copy"
+                        if can_true:
+                            rep.bad(rule, f.qname, d3, f.loc(d_), [f"{f.loc(d_)}: `{k_.value}: {unparse(v_, 50)}` can be true under a commit that is not full (e.g. inherited from the record being replaced)",
+                                    "full (content 1) -> links_only (content 2) -> full (content 2) on one path: the links-only commit writes the new key with the old record's `copied`, the last "
+                                    "full commit finds the record current and vouched and makes no copy: the data directory still holds content 1"], "voucher-inherited",
+                                    what="a redirect record vouches for a copy that this commit did not make")
+                        else:
+                            rep.ok(rule, f.qname, d3, f.loc(d_))
         avoid = [g for c in copy_asts for g in cfg.nodes_of(c)]
         avoid += [b for b in cfg.nodes if b.kind == "branch" and b.ast is not None and b.ast is not loop and not isinstance(b.ast, (ast.For, ast.While)) and excludes(b)]
         tb = [x for x in cfg.nodes if x.kind == "branch" and x.ast is loop and x.label == "T"]
@@ -570,6 +596,39 @@ def run(ctx: Ctx) -> None:
     else:
         rep.ok("C19.R18", hb.qname, f"DBFS has_blob reads the metadata only ({[repr(e) for e in hb_effs]})", hb.loc())
     rep.floor("C19.R18", 1 if hb_effs else 0, 1)
+    rep.rule("C19.R19", "the metadata is the commit marker: a marker that cannot be parsed (cut short by an interrupted put) means 'absent' - has_blob answers False and the blob is "
+                        "written again - it never makes has_blob raise: every json.loads reachable from has_blob sits in a try whose handler answers")
+    hbm = cls.methods["has_blob"]
+    reach19 = [hbm]
+    for _ in range(2):
+        for g_ in list(reach19):
+            for c_ in g_.own_nodes():
+                if isinstance(c_, ast.Call):
+                    fs_, _d = prog.callees(g_, c_, ctx._types)
+                    for h_ in fs_:
+                        if f_cls(h_) is cls and h_ not in reach19 and h_.name != "fetch_blob":
+                            reach19.append(h_)
+    n19 = 0
+    for g_ in reach19:
+        for c_ in g_.own_nodes():
+            if isinstance(c_, ast.Call) and unparse(c_.func) in ("json.loads", "loads", "json.load"):
+                n19 += 1
+                prot = False
+                prev_ = c_
+                for a_ in ancestors(g_.module, c_):
+                    if isinstance(a_, ast.Try) and any(prev_ is s_ or any(prev_ is y for y in ast.walk(s_)) for s_ in a_.body) and any(
+                            h.type is None or unparse(h.type).split(".")[-1] in ("Exception", "BaseException", "ValueError", "JSONDecodeError") for h in a_.handlers):
+                        prot = True
+                    if isinstance(a_, (ast.FunctionDef, ast.AsyncFunctionDef)):
+                        break
+                d19 = f"{g_.name}: `{unparse(c_, 40)}` of the marker is inside a try that answers 'absent'"
+                if prot:
+                    rep.ok("C19.R19", g_.qname, d19, g_.loc(c_))
+                else:
+                    rep.bad("C19.R19", g_.qname, d19, g_.loc(c_), [f"{g_.loc(c_)}: a marker that is empty or cut short raises JSONDecodeError out of has_blob",
+                            "every later keep of that result fails for good (also the evaluations that contain it); with the parse inside the try the store answers 'absent' and heals by recomputing"],
+                            stmt_key(c_), what="a torn blob marker makes has_blob raise instead of answering False")
+    rep.floor("C19.R19", n19, 1)
     rep.rule("C19.R15", "'full' leaves a copy of each kept result: sync_paths skips the copy of a path only when the commit type is not full, or when the redirect record "
                         "(a field other than the key) or the data directory vouches for the copy - the record alone is also written by links-only commits")
     n15 = full_copy_vouched(ctx, "C19.R15", ev, enum, full[0]) if full else 0
